@@ -53,15 +53,16 @@ type duplex struct {
 	mu  sync.Mutex
 	cv  *sync.Cond
 
-	in       [][]byte // peer -> server chunks
-	inEnd    string   // "", "eof", "timeout": what Read returns once `in` is empty
-	closed   bool     // server closed its side
-	wac      int
-	plain    bool
-	out      []byte // server -> peer, not yet read by the peer
-	peerWait bool   // the peer is blocked in Read with nothing to read
-	peerDone bool   // the peer will not read any more
-	onIdle   func() // called (once) when the server blocks in Read with an empty queue
+	in         [][]byte // peer -> server chunks
+	inEnd      string   // "", "eof", "timeout": what Read returns once `in` is empty
+	closed     bool     // server closed its side
+	wac        int
+	plain      bool
+	out        []byte // server -> peer, not yet read by the peer
+	srvWaiting bool   // the server is blocked in Read with nothing to read
+	peerWait   bool   // the peer is blocked in Read with nothing to read
+	peerDone   bool   // the peer will not read any more
+	onIdle     func() // called (once) when the server blocks in Read with an empty queue
 }
 
 func newDuplex(log *evlog) *duplex {
@@ -81,6 +82,7 @@ func (d *duplex) Read(b []byte) (int, error) {
 			return 0, nil
 		}
 		if len(d.in) > 0 {
+			d.srvWaiting = false
 			n := copy(b, d.in[0])
 			if n == len(d.in[0]) {
 				d.in = d.in[1:]
@@ -103,6 +105,7 @@ func (d *duplex) Read(b []byte) (int, error) {
 			d.mu.Lock()
 			continue
 		}
+		d.srvWaiting = true
 		d.cv.Wait()
 	}
 }
